@@ -711,9 +711,15 @@ func cliLeg(c *core.Ctx) {
 			c.Violation("cli-undecodable", err.Error(), replay)
 			return
 		}
-		// rebuild an output recording; records are identified by their id cell
-		var outs []nodeh.Out
-		step := 0
+		type obs struct {
+			wm       bool
+			t        int64
+			id       int
+			et       int64
+			retr     bool
+			rawStart string
+		}
+		var seq []obs
 		for _, nr := range recs {
 			if nr.IsWatermark {
 				w, err := time.Parse("2006-01-02 15:04:05.999999999 -0700 MST", nr.Watermark)
@@ -721,7 +727,7 @@ func cliLeg(c *core.Ctx) {
 					c.Violation("cli-undecodable", "watermark "+nr.Watermark+": "+err.Error(), replay)
 					return
 				}
-				outs = append(outs, nodeh.Out{Step: step, IsWatermark: true, Watermark: w})
+				seq = append(seq, obs{wm: true, t: w.UnixNano()})
 				continue
 			}
 			if len(nr.Cells) != 2 {
@@ -739,28 +745,73 @@ func cliLeg(c *core.Ctx) {
 				c.Violation("cli-undecodable", "bad time in "+nr.Raw, replay)
 				return
 			}
-			if id < step {
-				c.Violation("generator-mismatch", "records reordered: "+nr.Raw, replay)
-				return
+			seq = append(seq, obs{id: id, t: tf.UnixNano(), et: et.UnixNano(), retr: nr.Retraction})
+		}
+		if selftest && i%4 == 1 && len(seq) > 1 {
+			seq = seq[:len(seq)-1]
+		}
+		// flat judgement (the CLI output has no step markers): the records printed are exactly the
+		// expected ones in input order, unchanged and with event time == time field; the
+		// watermarks printed are exactly the expected ones in order; and each record is printed
+		// after the watermarks of all earlier inputs (and possibly after its own, if that does
+		// not make it late).
+		judgeFlat := func(want []step) string {
+			var wantRecs []int
+			var wantWMs []int64
+			for k, s := range want {
+				if s.pass {
+					wantRecs = append(wantRecs, k)
+				}
+				if s.watermark {
+					wantWMs = append(wantWMs, s.wm)
+				}
 			}
-			step = id
-			vals := []octosql.Value{octosql.NewInt(int64(id)), octosql.NewTime(tf), tc.row(id)[2]}
-			outs = append(outs, nodeh.Out{Step: step, Record: execution.NewRecord(vals, nr.Retraction, et)})
+			ri, wi := 0, 0
+			for _, o := range seq {
+				if o.wm {
+					if wi >= len(wantWMs) {
+						return fmt.Sprintf("surplus watermark %s", fmtNs(o.t))
+					}
+					if o.t != wantWMs[wi] {
+						return fmt.Sprintf("watermark #%d is %s, want %s", wi, fmtNs(o.t), fmtNs(wantWMs[wi]))
+					}
+					wi++
+					continue
+				}
+				if ri >= len(wantRecs) {
+					return fmt.Sprintf("surplus record id=%d (should have been dropped)", o.id)
+				}
+				if o.id != wantRecs[ri] {
+					return fmt.Sprintf("record #%d printed is id=%d, want id=%d (passed/dropped set differs)", ri, o.id, wantRecs[ri])
+				}
+				if o.retr || o.t != tc.times[o.id] || o.et != tc.times[o.id] {
+					return fmt.Sprintf("record id=%d altered: time %s event time %s, want both %s", o.id, fmtNs(o.t), fmtNs(o.et), fmtNs(tc.times[o.id]))
+				}
+				before := 0
+				for k := 0; k < o.id; k++ {
+					if want[k].watermark {
+						before++
+					}
+				}
+				if !(wi == before || (wi == before+1 && want[o.id].watermark && tc.times[o.id] > want[o.id].wm)) {
+					return fmt.Sprintf("record id=%d printed after %d watermarks, want %d", o.id, wi, before)
+				}
+				ri++
+			}
+			if ri != len(wantRecs) {
+				return fmt.Sprintf("%d records printed, want %d (id=%d missing)", ri, len(wantRecs), wantRecs[ri])
+			}
+			if wi != len(wantWMs) {
+				return fmt.Sprintf("%d watermarks printed, want %d", wi, len(wantWMs))
+			}
+			return ""
 		}
-		// a watermark printed after record k belongs to step k; watermarks caused by dropped
-		// records are attributed by the reference itself: walk the expected steps.
 		want := reference(tc.times, tc.cfg, false)
-		outs = attributeWatermarks(outs, want, len(tc.times))
-		if selftest && i%4 == 1 && len(outs) > 1 {
-			outs = outs[:len(outs)-1]
-		}
-		if msg := judge(tc, outs, want); msg != "" {
+		if msg := judgeFlat(want); msg != "" {
 			key := "generator-mismatch"
-			alt := reference(tc.times, tc.cfg, true)
-			if preEpochPredicate(tc) && judge(tc, attributeWatermarks(outs, alt, len(tc.times)), alt) == "" {
+			if preEpochPredicate(tc) && judgeFlat(reference(tc.times, tc.cfg, true)) == "" {
 				key = "pre-epoch-rounding"
 			}
-			replay["output"] = outsString(outs)
 			c.Violation(key, "CLI: "+msg, replay)
 		}
 		c.Count("cli_runs", 1)
@@ -768,46 +819,6 @@ func cliLeg(c *core.Ctx) {
 			c.Nontrivial("cli|" + tc.cfg.String() + fmt.Sprint(tc.times))
 		}
 	})
-}
-
-// attributeWatermarks assigns each watermark of a CLI recording (which has no step markers of its
-// own) to the earliest input step, at or after the preceding record's step, at which the
-// reference expects a watermark; surplus watermarks keep the preceding record's step so that the
-// judge reports them.
-func attributeWatermarks(outs []nodeh.Out, want []step, n int) []nodeh.Out {
-	res := make([]nodeh.Out, len(outs))
-	copy(res, outs)
-	next := 0 // next input step whose expected watermark is not yet matched
-	cur := 0
-	for i := range res {
-		if !res[i].IsWatermark {
-			cur = res[i].Step
-			if cur > next {
-				// watermarks expected strictly before this record's step were not printed before it
-				next = cur
-			}
-			continue
-		}
-		k := next
-		for k < n && !want[k].watermark {
-			k++
-		}
-		// the watermark may only belong to a step before the next printed record
-		limit := n
-		for j := i + 1; j < len(res); j++ {
-			if !res[j].IsWatermark {
-				limit = res[j].Step
-				break
-			}
-		}
-		if k < n && k < limit || (k < n && k == cur) {
-			res[i].Step = k
-			next = k + 1
-		} else {
-			res[i].Step = cur
-		}
-	}
-	return res
 }
 
 func firstLine(b []byte) string {
@@ -822,7 +833,6 @@ func firstLine(b []byte) string {
 
 func Run(c *core.Ctx) core.FinishOpts {
 	perCfg := c.Pick(50, 1000)
-	type job struct{ tc *tcase }
 	var jobs []*tcase
 	for ci, cfg := range configs {
 		rng := c.Rng(fmt.Sprintf("cfg-%d", ci))
